@@ -229,7 +229,7 @@ def main():
     res = ck.step_generate('Gen_C03', TARGETS)
     if res is not None:
         ck.step_prove('P_C03')
-    n = 500 if ck.thorough() else 100
+    n = 2500 if ck.thorough() else 100
     goals = run_cases(ck, res, n, 12 if ck.thorough() else 4)
     shape_cases(ck, res)
     if res is not None:
